@@ -136,7 +136,10 @@ def facts(keys, adj, order):
     for u in keys:
         for t in reach[u]:
             rin[t].add(u)
-    crit = {u: sorted(v for v in outs[u] if not any(v in reach[w] for w in reach[u] if w != v)) for u in keys}
+    crit = {}
+    for u in keys:
+        mids = [w for w in reach[u] if reach[w]]        # only a node that reaches something can bridge
+        crit[u] = sorted(v for v in outs[u] if not any(v in reach[w] for w in mids if w != v))
     critin = {k: [] for k in keys}
     for u in sorted(keys):
         for v in crit[u]:
@@ -396,7 +399,10 @@ def impl_oracle_main(c):
     for u in keys:
         for t in reach[u]:
             rin[t].add(u)
-    crit = {u: sorted(v for v in outs[u] if not any(v in reach[w] for w in reach[u] if w != v)) for u in keys}
+    crit = {}
+    for u in keys:
+        mids = [w for w in reach[u] if reach[w]]        # only a node that reaches something can bridge
+        crit[u] = sorted(v for v in outs[u] if not any(v in reach[w] for w in mids if w != v))
     critin = {k: [] for k in keys}
     for u in sorted(keys):
         for v in crit[u]:
@@ -648,8 +654,20 @@ def run(ck):
 
     binp = ck.build_harness("c19")
     cases = []
+    # layer widths of the wide stream: both sides of every integer the package names (literals and
+    # constants above 8, listed by the translator), else fixed sizes beyond anything random graphs reach
+    lits = []
+    try:
+        m = re.search(r"gen_int_literals : list N := \[([^\]]*)\]", open(os.path.join(vlib.COQ, "theories", "Gen", "DagsSrc.v")).read())
+        lits = [int(x.replace("%N", "")) for x in m.group(1).split(";") if x.strip()] if m else []
+    except OSError:
+        pass
+    widths = sorted({w for l in lits if l <= 40000 for w in (l - 1, l, l + 1, 2 * l + 1)})
+    if not widths:
+        widths = [4097, 5000] + ([9000] if ck.thorough else [])
+    ck.coverage["wide_layer_widths"] = widths
     if binp:
-        cases, _ = run_harness(ck, binp, ["-seed", str(ck.seed), "-n", str(nrand), "-n4=true",
+        cases, _ = run_harness(ck, binp, ["-seed", str(ck.seed), "-n", str(nrand), "-n4=true", "-wide", ",".join(map(str, widths)),
                                          "-big=%s" % ("true" if ck.thorough else "false")])
         if ck.thorough:
             # every graph on 5 nodes against the in-harness oracles; all the acyclic ones, a seeded
